@@ -113,6 +113,25 @@ def expected(stream_frames, k):
     return items, error, closed_by_frame
 
 
+def in_own_thread(op, timeout=10.0):
+    """-> 'accepted' | 'OSError' | '<Type>: text' | 'blocked'"""
+    out = []
+
+    def call():
+        try:
+            op()
+            out.append("accepted")
+        except OSError:
+            out.append("OSError")
+        except BaseException as e:  # noqa
+            out.append(f"{type(e).__name__}: {e}")
+
+    t = threading.Thread(target=call, daemon=True)
+    t.start()
+    t.join(timeout)
+    return out[0] if out else "blocked"
+
+
 def run_one_cut(res, rng, prog, S, k, transport, variant, label, user_closes=None, hammer=False):
     from execnet.gateway_base import RemoteError
     from vlib import pairs
@@ -374,14 +393,14 @@ def run_one_cut(res, rng, prog, S, k, transport, variant, label, user_closes=Non
                      ("gateway_send", lambda: gw._send(M["CHANNEL_DATA"], 1, b""))):
         if name == "send" and all(ch is None for ch in chans.values()):
             continue
-        try:
-            op()
-        except OSError:
-            pass
-        except BaseException as e:
-            res.violation(m(f"{name}-after-loss-raised-{type(e).__name__}"), f"{label}: {e}")
-        else:
+        # (each from a thread of its own: what one failed call leaves behind must not stop the next caller)
+        out = in_own_thread(op)
+        if out == "blocked":
+            res.violation(m(f"{name}-after-loss-blocks"), f"{label}: no answer within 10 s")
+        elif out == "accepted":
             res.violation(m(f"{name}-after-loss-accepted"), label)
+        elif out != "OSError":
+            res.violation(m(f"{name}-after-loss-raised-{out.split(':')[0]}"), f"{label}: {out}")
     sp.shutdown(2)
     res.count("cuts")
 
@@ -837,14 +856,13 @@ def run_kill(spec):
             if gw.hasreceiver():
                 res.violation(f"gateway-still-receiving-after-kill:{spec['spec']}", label)
             for name, op in (("newchannel", gw.newchannel), ("remote_exec", lambda: gw.remote_exec("pass")), ("send", lambda: ch.send(1))):
-                try:
-                    op()
-                except OSError:
-                    pass
-                except BaseException as e:
-                    res.violation(f"{name}-after-kill-raised-{type(e).__name__}:{spec['spec']}", f"{label}: {e}")
-                else:
+                out = in_own_thread(op)
+                if out == "blocked":
+                    res.violation(f"{name}-after-kill-blocks:{spec['spec']}", f"{label}: no answer within 10 s")
+                elif out == "accepted":
                     res.violation(f"{name}-after-kill-accepted:{spec['spec']}", label)
+                elif out != "OSError":
+                    res.violation(f"{name}-after-kill-raised-{out.split(':')[0]}:{spec['spec']}", f"{label}: {out}")
         except BaseException as e:
             res.violation(f"kill-run-raised:{spec['spec']}:{type(e).__name__}", str(e)[-300:])
         finally:
